@@ -86,6 +86,7 @@ class SwitchWriteHandler(AbstractWriteHandler):
                     edges_that_will_be_visited_multiple_times.add(e)
                 already_printed_edges.add(e)
             already_printed_edges = set()  # reuse
+            switch_end = find_switch_end_label(self.start_vertex.graph, m.switch_id)
             with Blk(self.decompiler):
                 logger.debug("Handling switch cases...")
                 for e, switch_case_ops, is_default in list_of_switch_cases:
@@ -98,6 +99,11 @@ class SwitchWriteHandler(AbstractWriteHandler):
                         self.decompiler.write_stmnt("default:")
                     with Blk(self.decompiler, False):
                         logger.debug("... NOW block for cases.")
+                        if switch_end is not None and e.target == switch_end.index:
+                            # The case leads directly to the end of the switch: an empty case. (Cases that are not
+                            # adjacent may share this edge; each of them is just a break.)
+                            self.decompiler.write_stmnt("break;")
+                            continue
                         # If this will be visited multiple times, we need a label
                         if e in edges_that_will_be_visited_multiple_times and e not in already_printed_edges:
                             self.decompiler.write_stmnt(f"@switch{m.switch_id}_{e.index};")
